@@ -7,8 +7,9 @@ set -e
 LIB=$1; TAG=$2; shift 2
 D=/var/tmp/bppv-side/$TAG
 mkdir -p $D/verif
-rsync -a --delete --exclude target /verif/harness/ $D/harness/
-rsync -a --delete /verif/check /verif/lib /verif/spec /verif/known_findings.json /verif/vectors /verif/properties.jsonl $D/verif/
+SRC=${BPPV_SRC:-/verif}
+rsync -a --delete --exclude target $SRC/harness/ $D/harness/
+rsync -a --delete $SRC/check $SRC/lib $SRC/spec $SRC/known_findings.json $SRC/vectors $SRC/properties.jsonl $D/verif/
 sed -i "s#path = \"/repo\"#path = \"$LIB\"#" $D/harness/Cargo.toml
 export BPPV_HARNESS=$D/harness BPPV_WORK=$D/work BPPV_OUT=$D/out
 cd $D/verif
